@@ -68,8 +68,11 @@ def judge(w, pid, tvs, known, also=()):
                 violations.append({"replay": rp, "what": "%s at trace %s line %s" % (v.get("inv"), v.get("t"), v.get("l")), "rec": v})
                 break  # one replay per trace file is enough
         if r["drift"]:
+            first = min((d.get("l", 0) for d in r["drift"]), default=0)
+            # (kept for diagnosis; a drift is not a verdict)
+            kept = vlib.keep_replay(w, r["trace"], "DRIFT_l%s" % first)
             drift.append({"trace": os.path.basename(r["trace"]), "checks": sorted({d.get("inv") for d in r["drift"]}),
-                          "first": min((d.get("l", 0) for d in r["drift"]), default=0)})
+                          "first": first, "kept": kept})
     return violations, sorted(set(known_hits)), drift
 
 
